@@ -21,6 +21,13 @@ arrays; the sequence A, A, B, A over target sets / amplitude words / Fourier gri
 caller overwriting the returned arrays in place, and default-band calls around an explicit band; get_sig_array_indexes_range on
 the amplitude word itself (float64 / int64 / uint8 / float32 / scaled 1e-9); objects that held a record of another length
 (smoothed, other band) before reset_values, for records scaled by 1, 1e-9, 1e+6; the deprecated range / points setters.
+Fourth round: (1) a query leaves the object unchanged - around every bandwidth / significant-range / custom-matrix query everything
+the object reports (record, FAS, targets, smoothed spectrum: the arrays handed out BEFORE the query, kept by reference, and fresh
+reads) is compared bit-for-bit with snapshots; (2) orders of reads ('orders' pool cases): an object with a history has its record or
+its targets changed by every mutator on the menu, then every order of 1, 2 and 3 distinct reads (Fourier spectrum, its frequencies,
+dominant period, custom-matrix form, smoothed spectrum, bandwidth limits, significant range) - every smoothed quantity read on the
+way and at the end is that of the record / targets the object holds NOW; (3) in the history family the Fourier spectrum is read
+before the smoothed one on a twin object.
 """
 import math
 
@@ -77,6 +84,17 @@ def build(tier, seed):
     for m, alpha in fam:
         for w in words(alpha, m, m):
             cases.append({'a': list(w)})
+    # orders of reads after a change of the record / the targets: one pool case per (non-zero word, class).  All orders of 3
+    # distinct reads over the whole read menu for the shorter words, over READS_DEEP for the next length
+    om_full, om_shallow = (1, 2) if quick else (2, 4)
+    oc = []
+    for m in range(1, om_shallow + 1):
+        for w in words((0, 1, 3), m, m, nonzero=True):
+            for cname in ('Signal', 'AccSignal'):
+                oc.append({'k': 'orders', 'a': list(w), 'cls': cname, 'deep': m <= om_full})
+    stride = max(1, len(cases) // len(oc))
+    for i, c in enumerate(oc):       # spread over the case list (each costs 0.1 - 0.6 s)
+        cases.insert(i * (stride + 1), c)
     return {
         'cases': cases,
         'rule': 'all amplitude words over {0,1,3} on the positive bins of FAS grids with %s bins (incl. zero frequency)%s '
@@ -91,11 +109,17 @@ def build(tier, seed):
                 'targets / amplitudes / Fourier grid of the same length and end values, b in %s, returned arrays overwritten in place, '
                 'and default band / band=5 / default band; + get_sig_array_indexes_range on the word as float64 / int64 / uint8 / '
                 'float32 / x 1e-9; + objects that held another record (2N+1 samples, smoothed, band 5) before reset_values, records '
-                'scaled by %s, Signal and AccSignal (up to 8 bins); scale factors %s; '
+                'scaled by %s, Signal and AccSignal (up to 8 bins), the Fourier spectrum read before / after the smoothed one; scale '
+                'factors %s; + around every bandwidth / significant-range / custom-matrix query: everything the object reports (%s; '
+                'the arrays obtained before the query and fresh reads) bit-for-bit unchanged; + orders of reads: for every non-zero word '
+                'with up to %d positive bins x {Signal, AccSignal} x mutator in %s (AccSignal also %s) applied to an object with a '
+                'history: every order of 1 and 2 distinct reads from %s and of 3 distinct reads (words up to %d bins: the whole menu, '
+                'longer: %s), each smoothed quantity judged against the reference for the record / targets held NOW; '
                 'non-trivial = word not all zero'
                 % ([m + 1 for m, a in fam if len(a) == 3], '' if quick else ' and all words over {0,1} for 16 bins',
                    list(TSETS), list(BANDS), [c[0] for c in CONTAINERS], list(CONTAINER_ZEROS), [e[0] for e in EXT_SETS],
-                   list(EXT_BANDS), list(ABA_BANDS), list(HIST_SCALES), list(SCALES)),
+                   list(EXT_BANDS), list(ABA_BANDS), list(HIST_SCALES), list(SCALES), list(WATCHED), om_shallow, list(MUTATORS),
+                   list(MUTATORS_ACC), [n for n, k in READS], om_full, list(READS_DEEP)),
         'bounds': {'alphabet': [0, 1, 3], 'bins_incl_zero': [m + 1 for m, a in fam], 'dt': DT, 'bands': BANDS,
                    'target_sets': TSETS, 'zero_bin': ZEROS, 'bandwidth_ratios': [0.707, 0.5, 0.9],
                    'sig_freq_range_ratios': [15, 2],
@@ -107,6 +131,10 @@ def build(tier, seed):
                    'call_sequences': ['A, A, B=targets, A, B=amplitudes, A, B=frequencies, A (B shares length and end values)',
                                       'default band, band=5, default band', 'second call after the returned array was overwritten'],
                    'history_record_scales': HIST_SCALES,
+                   'watched_reads_around_queries': WATCHED,
+                   'read_orders': {'reads': [n for n, k in READS], 'depth3_reads_longer_words': READS_DEEP,
+                                   'mutators': MUTATORS, 'mutators_AccSignal_only': MUTATORS_ACC,
+                                   'max_positive_bins_full_depth3': om_full, 'max_positive_bins': om_shallow},
                    'sig_array_containers': ['float64', 'int64', 'uint8', 'float32', 'float64 x 1e-9'],
                    'caller_overwrites_its_target_array_after': ['constructor (every target set)', 'smooth_fa_freqs=',
                                                                 'smooth_fa_frequencies=', 'view of a table']},
@@ -123,7 +151,8 @@ def build(tier, seed):
                              'ext:tiny-frequencies-off-grid', 'square-matrix-off-grid', 'b=12.5', 'A-B-A',
                              'default-after-explicit-band', 'sig-array-indexes', 'narrow-or-unsigned-typed-argument',
                              'float32-typed-argument', 'object-with-history', 'object-record-tiny', 'object-record-large',
-                             'returned-array-overwritten', 'narrow-typed-targets-on-object', 'deprecated-target-setters'],
+                             'returned-array-overwritten', 'narrow-typed-targets-on-object', 'deprecated-target-setters',
+                             'read-order-after-record-change'] + ['orders:' + n for n in MUTATORS + MUTATORS_ACC],
         'assumptions': ['amplitudes outside {0,1,3} (x scale factors, unit phases) and grids above the bound are not examined',
                         'target frequencies are positive and finite (the window is undefined at 0)',
                         'b only on the menu {5,20,40,100} (+ 12.5 for the extended target sets); frequencies / amplitudes / targets '
@@ -143,7 +172,14 @@ def build(tier, seed):
                         'bandwidth limits are judged against the smoothed spectrum the object holds (whose own correctness is '
                         'the "reference" claim); grids with >= 9 bins run the object path as (zero-bin 0, Signal) and '
                         '(zero-bin 7, AccSignal) only',
-                        'reference: scalar loop, double precision; comparisons at 1e-10 of the largest amplitude'],
+                        'reference: scalar loop, double precision; comparisons at 1e-10 of the largest amplitude',
+                        'orders of reads: the record after a mutator is taken from s.values (what the mutators do to the record is '
+                        'not this property), its Fourier spectrum from a FRESH object of the same class holding that record (default '
+                        'padding); butter_pass and the mutators built on it need longer records than the enumerated ones and are not '
+                        'examined; a mutator that raises on a record is counted as disabled; the lazy smoothed spectrum is compared '
+                        'with b = 40',
+                        'a query leaves the object unchanged: judged bit-for-bit on values, fa_freqs, fa_spectrum, smooth_fa_freqs, '
+                        'smooth_fa_frequencies, smooth_fa_spectrum (arrays held from before the query and fresh reads), dt, npts'],
     }
 
 
@@ -237,6 +273,53 @@ def usable(sm, n):
         return None
 
 
+WATCHED = ('values', 'fa_freqs', 'fa_spectrum', 'smooth_fa_freqs', 'smooth_fa_frequencies', 'smooth_fa_spectrum')
+
+
+class Watch(object):
+    """Everything the object reports through its public reads, taken BEFORE a query: the arrays the getters hand out are kept by
+    reference (as a caller keeps them) next to private byte snapshots.  A query (bandwidth limits, significant range, custom-
+    matrix form, ...) does not change what the object reports: afterwards (a) the arrays obtained earlier and (b) fresh reads
+    must be bit-for-bit what they were ('unchanged' is exact by its nature)."""
+
+    def __init__(self, s):
+        self.s = s
+        self.take()
+
+    def take(self):
+        self.ok = True
+        try:
+            self.held = [(n, getattr(self.s, n)) for n in WATCHED]
+            self.keep = [snapshot(a) for n, a in self.held]
+            self.scal = (self.s.dt, self.s.npts)
+        except Exception:
+            self.ok = False     # an object that cannot be read is reported by the checks that read it
+
+    def check(self, r, sub, query):
+        if not self.ok:
+            return True
+        r.n_cmp += 1
+        bad = []
+        try:
+            for (n, a), k in zip(self.held, self.keep):
+                if snapshot(a) != k:
+                    bad.append('the array obtained from .%s before the query was modified' % n)
+                b = getattr(self.s, n)
+                if b is not a and snapshot(b) != k:
+                    bad.append('.%s reports something else after the query' % n)
+            if (self.s.dt, self.s.npts) != self.scal:
+                bad.append('dt / npts changed')
+        except Exception as e:
+            bad.append('object cannot be read after the query: %s' % e)
+        if bad:
+            r.fail('query-leaves-object-unchanged', dict(sub, query=query), '; '.join(bad[:4]),
+                   observed=[np.asarray(getattr(self.s, n, None)) for n in ('smooth_fa_spectrum', 'smooth_fa_freqs')],
+                   expected='what the object reported before the query')
+            self.take()         # judge the next query on its own
+            return False
+        return True
+
+
 def bandwidth_checks(r, sub, s, tg, ref, ratio_kw, fn_name):
     """Limits reported for the smoothed spectrum `ref` the object holds (its correctness is the business of the
     'reference' claim): ordered, bracket its peak, and are target frequencies whose smoothed amplitude exceeds
@@ -257,9 +340,11 @@ def bandwidth_checks(r, sub, s, tg, ref, ratio_kw, fn_name):
     not_below = set(tg[i] for i, v in enumerate(ref) if v > lim * (1 - 1e-9))
     above = [tg[i] for i, v in enumerate(ref) if v > lim * (1 + 1e-9)]
     lo = hi = None
+    watch = Watch(s)
     for name, fn, kind in fns:
         s2 = dict(sub, fn=name, ratio=ratio)
         ok, out = r.call('bandwidth', s2, fn)
+        watch.check(r, s2, name)
         if not ok:
             continue
         if isinstance(out, np.ndarray) and out.size:
@@ -588,6 +673,15 @@ def run_histories(r, a, m, N, f_all, apos, phases):
                     pass
                 s_.reset_values(x.copy())
                 return s_
+            # the other order of the first reads after the change of the record (the usual plotting order: Fourier spectrum
+            # first, smoothed spectrum second) on a second object with the same history: same smoothed spectrum
+            ok, s = r.call('object', dict(sub, order='FAS read before the smoothed spectrum'), build_)
+            fas_first = None
+            if ok:
+                ok, st = r.call('object', dict(sub, order='FAS read before the smoothed spectrum'),
+                                lambda: (np.array(s.fa_freqs), np.array(s.fa_spectrum), np.array(s.smooth_fa_spectrum)))
+                if ok:
+                    fas_first = st[2]
             ok, s = r.call('object', sub, build_)
             if not ok:
                 continue
@@ -596,6 +690,12 @@ def run_histories(r, a, m, N, f_all, apos, phases):
             if not ok:
                 continue
             lazy, ff_o, fa_o, tg_o = st
+            if fas_first is not None:
+                r.transitions += 1
+                r.cls('read-order-after-record-change')
+                r.expect_close('read-order', dict(sub, order='FAS read before the smoothed spectrum'), fas_first, lazy, rtol=1e-12,
+                               scale=max(float(np.max(np.abs(fa_o[1:]))) if fa_o.ndim == 1 and fa_o.size > 1 else 0.0, FLOOR * scale),
+                               what='smoothed spectrum after reset_values when the Fourier spectrum is read first vs when it is read second')
             if ff_o.ndim != 1 or ff_o.shape != fa_o.shape or len(ff_o) < 2 or ff_o[0] != 0 or np.any(ff_o[1:] <= 0):
                 r.fail('object', sub, 'object reports an unusable FAS (not checkable here)', observed=(ff_o, fa_o))
                 continue
@@ -629,9 +729,204 @@ def run_histories(r, a, m, N, f_all, apos, phases):
                                    floor=FLOOR * scale)
 
 
+# ------------------------------------------------------------------------------ orders of reads after a change of the record
+# reads of the object: (name, kind).  kind 'fas': unsmoothed quantities (performed, compared with a fresh object holding the same
+# record); 'smooth' / 'pair' / 'custom': judged against the Konno-Ohmachi reference for the record the object holds NOW
+READS = (('fa_spectrum', 'fas'), ('fa_freqs', 'fas'), ('max_fa_period', 'other'), ('custom-matrix', 'custom'),
+         ('smooth_fa_spectrum', 'smooth'), ('calc_bandwidth_freqs', 'pair'), ('get_sig_freq_range', 'pair'))
+READS_DEEP = ('fa_spectrum', 'custom-matrix', 'smooth_fa_spectrum', 'calc_bandwidth_freqs')
+MUTATORS = ('reset_values', 'reset_values(from 2N+1 samples)', 'add_series', 'add_signal', 'add_constant', 'remove_average',
+            'remove_poly(1)', 'running_average(3)',
+            # changes of the target frequencies (same number of targets as before, other values), the record stays
+            'smooth_fa_freqs=', 'smooth_fa_frequencies=', 'gen_smooth_fa_spectrum(smooth_fa_freqs=, band=40)')
+MUTATORS_ACC = ('remove_rolling_average(acceleration)', 'remove_rolling_average(velocity)', 'rebase_displacement',
+                'set_zero_residual_displacement')
+
+
+def read_orders(full_depth3):
+    names = [n for n, k in READS]
+    out = [(n,) for n in names]
+    out += [(p, q) for p in names for q in names if p != q]
+    deep = names if full_depth3 else list(READS_DEEP)
+    out += [(p, q, t) for p in deep for q in deep for t in deep if len(set((p, q, t))) == 3]
+    return out
+
+
+def run_orders(r, a, cname, full_depth3):
+    """One amplitude word, one class.  An object that held ANOTHER record (FAS, smoothed spectrum and bandwidth limits read) has its
+    record changed by each mutator of the class; then every order of 1, 2 (all reads) and 3 (READS_DEEP, thorough: all) distinct
+    reads.  Whatever the order, every smoothed quantity read is the Konno-Ohmachi mean (b = 40, the lazy default) of the Fourier
+    amplitudes of the record the object holds NOW (taken from s.values after the mutator; its FAS from a fresh object with that
+    record; weights from the scalar reference), the bandwidth limits are those of that smoothed spectrum, and at the end the arrays
+    obtained on the way are still what they were, the targets and the record unchanged."""
+    m = len(a)
+    N = 2 * (m + 1)
+    f_all = grid(m)
+    fpos = f_all[1:]
+    apos = [float(v) for v in a]
+    phases = np.array([PHASES[i % len(PHASES)] for i in range(m)], dtype=complex)
+    X = np.array([7.0] + [apos[i] * phases[i] for i in range(m)] + [0.0], dtype=complex) / DT
+    x = np.fft.irfft(X, n=N)
+    ramp = np.arange(N) * (0.5 * float(np.max(np.abs(x))) / N)
+    other = 3.0 * x[::-1] + 4.0 * ramp
+    other_long = np.concatenate([other, x, [2.0]])
+    tl = target_set('off-grid', fpos)
+    cls = getattr(eqsig, cname)
+    r.nontrivial += 1
+
+    def mutate(mname):
+        """object with a history, then the mutator; returns the object"""
+        start = {'reset_values': other, 'reset_values(from 2N+1 samples)': other_long, 'add_series': other, 'add_signal': other,
+                 'add_constant': x - 1.5, 'remove_average': x + 2.0, 'remove_poly(1)': x + ramp}.get(mname, x)
+        s_ = cls(start.copy(), DT, smooth_fa_freqs=[1.01 * t for t in tl] if 'smooth_fa_freq' in mname else list(tl))
+        _ = (s_.fa_spectrum, s_.fa_freqs, s_.smooth_fa_spectrum)
+        _ = im.calc_bandwidth_freqs(s_)
+        if mname == 'smooth_fa_freqs=':
+            s_.smooth_fa_freqs = list(tl)
+        elif mname == 'smooth_fa_frequencies=':
+            s_.smooth_fa_frequencies = np.array(tl)
+        elif mname.startswith('gen_smooth_fa_spectrum'):
+            s_.gen_smooth_fa_spectrum(smooth_fa_freqs=np.array(tl), band=40)
+        elif mname.startswith('reset_values'):
+            s_.reset_values(x.copy())
+        elif mname == 'add_series':
+            s_.add_series(x - other)
+        elif mname == 'add_signal':
+            s_.add_signal(eqsig.Signal(x - other, DT))
+        elif mname == 'add_constant':
+            s_.add_constant(1.5)
+        elif mname == 'remove_average':
+            s_.remove_average()
+        elif mname == 'remove_poly(1)':
+            s_.remove_poly(1)
+        elif mname == 'running_average(3)':
+            s_.running_average(3)
+        elif mname == 'remove_rolling_average(acceleration)':
+            s_.remove_rolling_average(mtype='acceleration', freq_window=40)
+        elif mname == 'remove_rolling_average(velocity)':
+            s_.remove_rolling_average(mtype='velocity', freq_window=40)
+        elif mname == 'rebase_displacement':
+            s_.rebase_displacement()
+        elif mname == 'set_zero_residual_displacement':
+            s_.set_zero_residual_displacement()
+        else:
+            raise KeyError(mname)
+        return s_
+    orders = read_orders(full_depth3)
+    for mname in MUTATORS + (MUTATORS_ACC if cname == 'AccSignal' else ()):
+        base = {'a': a, 'a0': 7.0, 'cls': cname, 'targets': 'off-grid', 'after': mname}
+        # ---- what must hold after the mutator: from the record the object then holds
+        try:
+            probe = mutate(mname)
+            vals_now = np.array(probe.values)
+            twin = cls(vals_now.copy(), DT)
+            ff_t, fa_t = np.array(twin.fa_freqs), np.array(twin.fa_spectrum)
+            if vals_now.ndim != 1 or not np.all(np.isfinite(vals_now)) or ff_t[0] != 0 or len(ff_t) < 2 or len(ff_t) != len(fa_t):
+                raise ValueError('unusable record / FAS after the mutator')
+        except Exception:
+            r.disabled['orders: mutator not applicable to this record (%s)' % mname] += 1
+            continue
+        fpos_t = [float(v) for v in ff_t[1:]]
+        apos_t = [float(abs(v)) for v in fa_t[1:]]
+        top = max(apos_t)
+        if not top > 0:
+            r.disabled['orders: zero spectrum after the mutator (%s)' % mname] += 1
+            continue
+        W = fr.ko_matrix(fpos_t, tl, 40)
+        ref = fr.ko_smooth(W, apos_t)
+        Wn = np.array(W)
+        mx = max(ref)
+        judged_pairs = mx > 1e-6 * top
+        r.cls('orders:' + mname)
+        lims = {}
+        for rname, ratio in (('calc_bandwidth_freqs', 0.707), ('get_sig_freq_range', 1.0 / 15)):
+            lim = mx * ratio
+            lims[rname] = (ratio, [tl[i] for i, v in enumerate(ref) if v >= mx * (1 - 1e-9)],
+                           set(tl[i] for i, v in enumerate(ref) if v > lim * (1 - 1e-9)))
+
+        def do_read(s, rname, kind, sub, got):
+            if rname == 'fa_spectrum':
+                ok, out = r.call('object', sub, lambda: s.fa_spectrum)
+                if ok:
+                    r.expect_close('object', sub, out, fa_t, rtol=1e-12, scale=top, what='FAS vs FAS of a fresh object with the same record')
+            elif rname == 'fa_freqs':
+                ok, out = r.call('object', sub, lambda: s.fa_freqs)
+                if ok:
+                    r.expect_close('object', sub, out, ff_t, rtol=1e-12, what='FAS frequencies vs those of a fresh object')
+            elif rname == 'max_fa_period':
+                ok, out = r.call('object', sub, im.max_fa_period, s)
+            elif rname == 'custom-matrix':
+                ok, out = r.call('matrix==direct', sub, frequency.calc_smooth_fa_spectrum_w_custom_matrix, s, Wn)
+                if ok:
+                    r.expect_close('matrix==direct', sub, out, ref, rtol=1e-10, scale=top,
+                                   what='custom-matrix form (reference weights) vs Konno-Ohmachi mean of the current record')
+            elif rname == 'smooth_fa_spectrum':
+                ok, out = r.call('reference', sub, lambda: s.smooth_fa_spectrum)
+                if ok:
+                    r.expect_close('reference', sub, out, ref, rtol=1e-10, scale=top,
+                                   what='smoothed spectrum vs Konno-Ohmachi mean of the Fourier amplitudes of the record held now')
+            else:
+                fn = im.calc_bandwidth_freqs if rname == 'calc_bandwidth_freqs' else frequency.get_sig_freq_range
+                if not judged_pairs:
+                    try:
+                        fn(s)
+                    except Exception:
+                        pass
+                    return
+                ok, out = r.call('bandwidth', sub, fn, s)
+                if ok:
+                    ratio, peaks, not_below = lims[rname]
+                    try:
+                        if len(out) != 2:
+                            raise ValueError('length %d' % len(out))
+                        lo, hi = float(out[0]), float(out[1])
+                    except Exception as e:
+                        r.fail('bandwidth', sub, 'malformed result: %s' % e, observed=out)
+                        return
+                    r.expect('bandwidth.member', sub, lo in not_below and hi in not_below,
+                             'a limit is not a target frequency whose smoothed amplitude (current record) exceeds ratio*max',
+                             observed=(lo, hi), expected=sorted(not_below))
+                    r.expect('bandwidth.ordered', sub, lo <= hi, 'f_min > f_max', observed=(lo, hi))
+                    r.expect('bandwidth.brackets-peak', sub, any(lo <= p_ <= hi for p_ in peaks),
+                             'peak of the smoothed spectrum of the current record not inside [f_min, f_max]', observed=(lo, hi),
+                             expected=peaks)
+                    out = None      # tuples / fresh arrays: nothing of the object's to hold on to
+            if ok and isinstance(out, np.ndarray):
+                got.append((rname, out, snapshot(out)))
+        kinds = dict(READS)
+        for order in orders:
+            sub = dict(base, reads=list(order))
+            r.states += 1
+            r.transitions += len(order)
+            ok, s = r.call('object', sub, mutate, mname)
+            if not ok:
+                continue
+            got = []
+            for i, rname in enumerate(order):
+                do_read(s, rname, kinds[rname], dict(sub, read=i, fn=rname), got)
+            # ---- afterwards: smoothed spectrum, targets, record; arrays obtained on the way untouched
+            s9 = dict(sub, read='final')
+            ok, out = r.call('reference', s9, lambda: (s.smooth_fa_spectrum, s.smooth_fa_freqs, s.values))
+            if ok:
+                r.expect_close('reference', s9, out[0], ref, rtol=1e-10, scale=top,
+                               what='smoothed spectrum after the reads vs Konno-Ohmachi mean of the record held now')
+                r.expect('targets-owned', s9, snapshot(np.asarray(out[1], dtype=float)) == snapshot(np.array(tl, dtype=float)),
+                         'target frequencies changed', observed=out[1], expected=tl)
+                r.expect('query-leaves-object-unchanged', s9, snapshot(np.asarray(out[2])) == snapshot(vals_now),
+                         'the record changed while it was only read', observed=out[2], expected=vals_now)
+            r.n_cmp += 1
+            for rname, arr, snap in got:
+                if snapshot(arr) != snap:
+                    r.fail('query-leaves-object-unchanged', dict(s9, held=rname),
+                           'the array obtained from %s was modified by a later read' % rname, observed=arr)
+    return r
+
+
 # ------------------------------------------------------------------------------ one word
 def run_case(case):
     r = Res()
+    if case.get('k') == 'orders':
+        return run_orders(r, case['a'], case['cls'], bool(case.get('deep')))
     a = case['a']
     m = len(a)
     N = 2 * (m + 1)
@@ -907,7 +1202,9 @@ def run_case(case):
                     def custom():
                         M = frequency.calc_smoothing_matrix_konno_1998(ff_o.copy(), tg_o.copy(), band=b)
                         return frequency.calc_smooth_fa_spectrum_w_custom_matrix(s, M)
+                    watch = Watch(s)
                     ok, cm = r.call('matrix==direct', s3, custom)
+                    watch.check(r, s3, 'calc_smooth_fa_spectrum_w_custom_matrix')
                     if ok:
                         r.transitions += 1
                         r.expect_close('matrix==direct', s3, cm, sm, rtol=1e-10, scale=max(max(apos_o), FLOOR),
@@ -1039,4 +1336,14 @@ def snippet(case, v):
             "x = np.fft.irfft(np.array([sub.get('a0', 0.)] + a + [0.]) / dt, n=N)\n"
             "s = eqsig.AccSignal(x, dt) if t is None else eqsig.AccSignal(x, dt, smooth_fa_freqs=t); s.gen_fa_spectrum(n=N)\n"
             "print('object', s.smooth_fa_spectrum, 'bandwidth', eqsig.im.calc_bandwidth_freqs(s))\n"
+            "if 'query' in sub:    # a query must leave what the object reports unchanged\n"
+            "    s = eqsig.AccSignal(x, dt) if t is None else eqsig.AccSignal(x, dt, smooth_fa_freqs=t)\n"
+            "    held = s.smooth_fa_spectrum; before = held.copy(); q = getattr(eqsig.im, sub['query'], None) or getattr(frequency, sub['query'])\n"
+            "    q(s); print('smoothed spectrum before the query', before, 'array held from before', held, 'reported now', s.smooth_fa_spectrum)\n"
+            "if 'reads' in sub:    # object with a history, record changed (here: reset_values; see sub['after']), then the reads in this order\n"
+            "    cls = getattr(eqsig, sub.get('cls', 'Signal')); tt = tsets['off-grid']\n"
+            "    s = cls(3 * x[::-1] + np.arange(N), dt, smooth_fa_freqs=tt); s.fa_spectrum; s.smooth_fa_spectrum; s.reset_values(x.copy())\n"
+            "    for n in sub['reads']:\n"
+            "        getattr(s, n) if hasattr(s, n) else (getattr(eqsig.im, n, None) or getattr(frequency, n, lambda q: q.fa_spectrum))(s)\n"
+            "    print('after the reads', s.smooth_fa_spectrum, 'fresh object with the same record', cls(x, dt, smooth_fa_freqs=tt).smooth_fa_spectrum)\n"
             % (case['a'], sub, DT))
